@@ -130,3 +130,20 @@ func init() {
 		return Tuple{out, T.True}
 	})
 }
+
+func init() {
+	// crypto/subtle.ConstantTimeCompare: 1 iff equal length and contents (its documented contract;
+	// the implementation relies on compiler intrinsics)
+	ctc := func(m *Machine, fr *frame, a []Value) Value {
+		x, y := sliceTerms(a[0].([]Value)), sliceTerms(a[1].([]Value))
+		if len(x) != len(y) {
+			return BV(64, 0)
+		}
+		return Ite(strEq(StrFromTerms(x), StrFromTerms(y)), BV(64, 1), BV(64, 0))
+	}
+	reg("crypto/subtle.ConstantTimeCompare", ctc)
+	reg("crypto/internal/fips140/subtle.ConstantTimeCompare", ctc)
+	reg("crypto/internal/constanttime.boolToUint8", func(m *Machine, fr *frame, a []Value) Value {
+		return Ite(asTerm(a[0]), BV(8, 1), BV(8, 0))
+	})
+}
